@@ -31,6 +31,8 @@ type Job struct {
 	Replay    string   `json:"replay"` // replay file (mode replay)
 	MaxKeep   int      `json:"max_keep"`
 	Tree      string   `json:"tree"`
+	// RaceLog: GORACE log_path prefix; set for workers running the -race binary.
+	RaceLog string `json:"race_log"`
 }
 
 type ViolationReport struct {
@@ -164,7 +166,26 @@ func workerExplore(t *testing.T, job *Job, known *KnownFindings, out *WorkerOut,
 		fam := job.Families[i%len(job.Families)]
 		seed := job.SeedBase + uint64(job.Worker) + uint64(i)*uint64(job.Workers)
 		spec := RunSpec{Prop: job.Prop, Family: fam, Seed: seed}
+		var raceBefore int64
+		if job.RaceLog != "" {
+			_, raceBefore = raceLogSize(job.RaceLog)
+		}
 		r := ExecRun(t, spec, known)
+		if job.RaceLog != "" {
+			if path, sz := raceLogSize(job.RaceLog); sz > raceBefore {
+				b, _ := os.ReadFile(path)
+				for _, rep := range parseRaceLog(string(b[raceBefore:])) {
+					if !rep.InSUT {
+						out.OtherProps["harness-race/"+rep.Sig]++
+						continue
+					}
+					v := Violation{Prop: "C11", Class: "data-race", Sig: rep.Sig, Detail: trunc(rep.Text, 6000)}
+					v.Known = known.Match(v)
+					r.Violations = append(r.Violations, v)
+					r.Outcome = "race"
+				}
+			}
+		}
 		out.Runs++
 		out.Outcomes[r.Outcome]++
 		out.Steps += r.Steps
@@ -207,6 +228,10 @@ func workerExplore(t *testing.T, job *Job, known *KnownFindings, out *WorkerOut,
 				continue
 			}
 			seenViol[v.Key()] = true
+			if v.Class == "data-race" {
+				out.Violations = append(out.Violations, reportRace(job, spec, r, v))
+				continue
+			}
 			out.Violations = append(out.Violations, reportViolation(t, job, known, spec, r, v))
 		}
 	}
@@ -254,7 +279,21 @@ func workerReplay(t *testing.T, job *Job, known *KnownFindings, out *WorkerOut) 
 	}
 	rf.Spec.Replay = true
 	rf.Spec.NoKnownSoft = true
+	var raceBefore int64
+	if job.RaceLog != "" {
+		_, raceBefore = raceLogSize(job.RaceLog)
+	}
 	r := ExecRun(t, rf.Spec, known)
+	if job.RaceLog != "" {
+		if path, sz := raceLogSize(job.RaceLog); sz > raceBefore {
+			b, _ := os.ReadFile(path)
+			for _, rep := range parseRaceLog(string(b[raceBefore:])) {
+				if rep.InSUT {
+					r.Violations = append(r.Violations, Violation{Prop: "C11", Class: "data-race", Sig: rep.Sig, Detail: trunc(rep.Text, 6000)})
+				}
+			}
+		}
+	}
 	out.Runs = 1
 	out.Outcomes[r.Outcome]++
 	for _, v := range r.Violations {
@@ -266,4 +305,19 @@ func workerReplay(t *testing.T, job *Job, known *KnownFindings, out *WorkerOut) 
 	for _, v := range r.Violations {
 		out.OtherProps[v.Key()]++
 	}
+}
+
+// reportRace writes the replay file of a data race: the seed's workload and the
+// round structure (release sets) are replayed; the detector's two stacks are kept.
+func reportRace(job *Job, spec RunSpec, r *RunResult, v Violation) ViolationReport {
+	mspec := spec
+	mspec.Scenario = r.Spec.Scenario
+	mspec.Tapes = r.TapesOut
+	mspec.Replay = true
+	rf := ReplayFile{Property: v.Prop, Violation: v, Spec: mspec, Tree: job.Tree, Note: "data race found in co-release mode under the Go race detector; replay needs the -race binary (./check replay does that)"}
+	os.MkdirAll(job.ReplayDir, 0o755)
+	path := fmt.Sprintf("%s/%s-%s-%d.json", job.ReplayDir, v.Prop, spec.Family, spec.Seed)
+	js, _ := json.MarshalIndent(rf, "", " ")
+	os.WriteFile(path, js, 0o644)
+	return ViolationReport{Violation: v, ReplayFile: path, Seed: spec.Seed, Family: spec.Family, StepsFrom: len(mspec.Scenario.Steps), StepsTo: len(mspec.Scenario.Steps), Replayed: true}
 }
